@@ -17,7 +17,7 @@
  *   cursor xm w h xh yh <src>                               ok   (rfbMakeXCursor, mask derived)
  *   cursor rich  w h xh yh <pix> <mask> fr fg fb br bg bb   ok
  *   cursor alpha w h xh yh <pix> <alpha> premult            ok   (mask by rfbMakeMaskFromAlphaSource)
- *   client id raw|x|rich                                    ok
+ *   client id raw|x|rich [f8|f8b|f16|f16b|f32|f32b]         ok   (SetPixelFormat; default: server's format)
  *   ptr id x y buttons                                      pos=X,Y pc=<id|-> moved=<id>:<b>,...
  *   req id incr x y w h                                     ok
  *   failnext id k       (k-th write from now on fails)      ok
@@ -44,6 +44,13 @@ static vh_conn conns[MAXC];
 static int used[MAXC], kind[MAXC];       /* kind: 0 raw, 1 x, 2 rich */
 static int fullreq[MAXC];                /* a request covering the whole screen is pending */
 static unsigned char *pic[MAXC], *cov[MAXC];
+/* the client's pixel format (SetPixelFormat); CB = its bytes per pixel; xl = differs from the server's */
+typedef struct { const char *name; int bytes, depth, rm, gm, bm, rs, gs, bs; } vfmt;
+static const vfmt FMTS[] = {
+  { "f8", 1, 8, 7, 7, 3, 0, 3, 6 }, { "f8b", 1, 8, 7, 7, 3, 5, 2, 0 },
+  { "f16", 2, 16, 31, 31, 31, 0, 5, 10 }, { "f16b", 2, 16, 31, 63, 31, 11, 5, 0 },
+  { "f32", 4, 32, 255, 255, 255, 0, 8, 16 }, { "f32b", 4, 24, 255, 255, 255, 16, 8, 0 } };
+static vfmt cfmt[MAXC]; static int CB[MAXC], xl[MAXC];
 static rfbScreenInfoPtr scr;
 static int W, H, BPP;
 
@@ -84,6 +91,16 @@ static uint32_t pixval(uint32_t x, uint32_t y, uint32_t seed) {
 }
 static uint32_t getpx(const unsigned char *base, int x, int y) {
   uint32_t v = 0; memcpy(&v, base + ((size_t)y * W + x) * BPP, BPP); return v;
+}
+static uint32_t getcpx(int id, int x, int y) {
+  uint32_t v = 0; memcpy(&v, pic[id] + ((size_t)y * W + x) * CB[id], CB[id]); return v;
+}
+/* independent re-implementation of the RFB translation rule for one pixel (server -> client id) */
+static uint32_t ref_translate(int id, uint32_t p) {
+  rfbPixelFormat *f = &scr->serverFormat; const vfmt *c = &cfmt[id];
+  uint32_t r = (p >> f->redShift) & f->redMax, g = (p >> f->greenShift) & f->greenMax, b = (p >> f->blueShift) & f->blueMax;
+  r = (r * c->rm + f->redMax / 2) / f->redMax; g = (g * c->gm + f->greenMax / 2) / f->greenMax; b = (b * c->bm + f->blueMax / 2) / f->blueMax;
+  return (r << c->rs) | (g << c->gs) | (b << c->bs);
 }
 static void setpx(unsigned char *base, int x, int y, uint32_t v) {
   memcpy(base + ((size_t)y * W + x) * BPP, &v, BPP);
@@ -175,18 +192,27 @@ static void check_pixels(const char *label, int id, int px, int py, const unsign
   int x, y; rfbPixelFormat *f = &scr->serverFormat;
   int have = 0, hx = 0, hy = 0; uint32_t hgot = 0, hwant = 0; const char *hcause = "";
   for (y = 0; y < H; y++) for (x = 0; x < W; x++) {
-    uint32_t got = getpx(pic[id], x, y), want, m = 0xffffffffu, under; int rgb[3], mode = 1, bad; const char *cause = "";
+    uint32_t got = getcpx(id, x, y), want, m = 0xffffffffu, under; int rgb[3], mode = 1, bad; const char *cause = "";
     if (pend && pend[y * W + x]) continue;
     if (kind[id] == 0) mode = reference(x, y, px, py, &want, &m, rgb);
     else want = getpx((unsigned char *)scr->frameBuffer, x, y);
     if (mode == 0) continue;
-    if (mode == 1) bad = ((got ^ want) & m) != 0;
-    else bad = !(chan_ok(got, f->redMax, f->redShift, rgb[0]) && chan_ok(got, f->greenMax, f->greenShift, rgb[1]) &&
-                 chan_ok(got, f->blueMax, f->blueShift, rgb[2]));
+    if (mode == 1) bad = xl[id] ? (got != ref_translate(id, want)) : (((got ^ want) & m) != 0);
+    else {
+      /* X-cursor colour: every channel of the SERVER pixel is the 16-bit colour scaled down, rounded
+         either way; a translating client then sees the translation of one of those pixels */
+      uint32_t lo[3], hi[3]; int k, mx[3] = { f->redMax, f->greenMax, f->blueMax }, sh[3] = { f->redShift, f->greenShift, f->blueShift };
+      for (k = 0; k < 3; k++) { lo[k] = (uint32_t)((uint64_t)mx[k] * rgb[k] / 0xffff); hi[k] = (uint32_t)(((uint64_t)mx[k] * rgb[k] + 0xfffe) / 0xffff); }
+      bad = 1;
+      for (k = 0; k < 8 && bad; k++) {
+        uint32_t v = ((k & 1 ? hi[0] : lo[0]) << sh[0]) | ((k & 2 ? hi[1] : lo[1]) << sh[1]) | ((k & 4 ? hi[2] : lo[2]) << sh[2]);
+        if (xl[id] ? (got == ref_translate(id, v)) : (((got ^ v) & fmtmask()) == 0)) bad = 0;
+      }
+    }
     if (!bad) continue;
     under = getpx((unsigned char *)scr->frameBuffer, x, y);
-    if (kind[id] == 0 && (x == W - 1 || y == H - 1) && got == under) cause = " cause=clip-last-col-row";
-    else if (mode == 2 && got == colour_unscaled(rgb[0], rgb[1], rgb[2])) cause = " cause=xcolour-unscaled";
+    if (kind[id] == 0 && (x == W - 1 || y == H - 1) && got == (xl[id] ? ref_translate(id, under) : under)) cause = " cause=clip-last-col-row";
+    else if (mode == 2 && got == (xl[id] ? ref_translate(id, colour_unscaled(rgb[0], rgb[1], rgb[2])) : colour_unscaled(rgb[0], rgb[1], rgb[2]))) cause = " cause=xcolour-unscaled";
     if (!have || (hcause[0] && !cause[0])) { have = 1; hx = x; hy = y; hgot = got; hwant = want; hcause = cause; }
     if (!cause[0]) goto report;
   }
@@ -231,10 +257,10 @@ static int decode(int id, vh_buf *shape, int *havepos, int *posx, int *posy) {
       x = be16(o->p + off); y = be16(o->p + off + 2); w = be16(o->p + off + 4); h = be16(o->p + off + 6);
       enc = be32(o->p + off + 8); off += 12;
       if (enc == rfbEncodingRaw) {
-        size_t len = (size_t)w * h * BPP;
+        size_t len = (size_t)w * h * CB[id];
         if (off + len > o->n || x + w > W || y + h > H) return -1;
         for (j = 0; j < h; j++) {
-          memcpy(pic[id] + ((size_t)(y + j) * W + x) * BPP, o->p + off + (size_t)j * w * BPP, (size_t)w * BPP);
+          memcpy(pic[id] + ((size_t)(y + j) * W + x) * CB[id], o->p + off + (size_t)j * w * CB[id], (size_t)w * CB[id]);
           memset(cov[id] + (size_t)(y + j) * W + x, 1, w);
         }
         off += len;
@@ -242,7 +268,7 @@ static int decode(int id, vh_buf *shape, int *havepos, int *posx, int *posy) {
         size_t rb = (w + 7) / 8, len;
         char hdr[64];
         if (enc == (int32_t)rfbEncodingXCursor) len = (w * h) ? 6 + 2 * rb * h : 0;
-        else len = (size_t)w * h * BPP + rb * h;
+        else len = (size_t)w * h * CB[id] + rb * h;
         if (off + len > o->n) return -1;
         snprintf(hdr, sizeof hdr, "%s:%d,%d,%d,%d:", enc == (int32_t)rfbEncodingXCursor ? "X" : "R", x, y, w, h);
         vh_buf_reset(shape);
@@ -338,11 +364,12 @@ static int op_cursor(char **tok, int n) {
 /* ---------------------------------------------------------------- clients */
 static void put32(unsigned char *p, uint32_t v) { p[0] = v >> 24; p[1] = v >> 16; p[2] = v >> 8; p[3] = v; }
 
-static int op_client(int id, const char *k) {
-  unsigned char b[64]; vh_conn *c = &conns[id]; int ne = 0; int32_t encs[4];
+static int op_client(int id, const char *k, const char *fname) {
+  unsigned char b[64]; vh_conn *c = &conns[id]; int ne = 0; int32_t encs[4]; const vfmt *cf = NULL;
   if (id < 0 || id >= MAXC || used[id] || !scr) return -1;
   if (!strcmp(k, "raw")) kind[id] = 0; else if (!strcmp(k, "x")) kind[id] = 1;
   else if (!strcmp(k, "rich")) kind[id] = 2; else return -1;
+  if (fname) { size_t i; for (i = 0; i < sizeof FMTS / sizeof FMTS[0]; i++) if (!strcmp(fname, FMTS[i].name)) cf = &FMTS[i]; if (!cf) return -1; }
   used[id] = 1;
   if (vh_connect_pre(scr, c, "RFB 003.008\n", 12) < 0 || !c->cl) return -1;
   rfbProcessClientMessage(c->cl);                       /* version */
@@ -356,8 +383,20 @@ static int op_client(int id, const char *k) {
   { int i; for (i = 0; i < ne; i++) put32(b + 4 + 4 * i, (uint32_t)encs[i]); }
   vh_send(c, b, 4 + 4 * ne);
   rfbProcessClientMessage(c->cl);
+  CB[id] = BPP; xl[id] = 0;
+  if (cf) {                      /* SetPixelFormat: little-endian true colour */
+    memset(b, 0, 20);
+    b[0] = rfbSetPixelFormat; b[4] = (unsigned char)(cf->bytes * 8); b[5] = (unsigned char)cf->depth; b[6] = 0; b[7] = 1;
+    b[8] = cf->rm >> 8; b[9] = cf->rm; b[10] = cf->gm >> 8; b[11] = cf->gm; b[12] = cf->bm >> 8; b[13] = cf->bm;
+    b[14] = cf->rs; b[15] = cf->gs; b[16] = cf->bs;
+    vh_send(c, b, 20);
+    rfbProcessClientMessage(c->cl);
+    if (!c->cl || c->cl->sock == RFB_INVALID_SOCKET) return -1;
+    cfmt[id] = *cf; CB[id] = cf->bytes;
+    xl[id] = (c->cl->translateFn != rfbTranslateNone);
+  }
   vh_drain(c); vh_buf_reset(&c->out);
-  pic[id] = (unsigned char *)calloc((size_t)W * H, BPP);
+  pic[id] = (unsigned char *)calloc((size_t)W * H, CB[id]);
   cov[id] = (unsigned char *)calloc((size_t)W * H, 1);
   return 0;
 }
@@ -389,8 +428,8 @@ int main(void) {
       puts("ok");
     } else if (!strcmp(tok[0], "cursor")) {
       puts(op_cursor(tok, n) == 0 ? "ok" : "bad-op");
-    } else if (!strcmp(tok[0], "client") && n == 3) {
-      puts(op_client(atoi(tok[1]), tok[2]) == 0 ? "ok" : "bad-op");
+    } else if (!strcmp(tok[0], "client") && (n == 3 || n == 4)) {
+      puts(op_client(atoi(tok[1]), tok[2], n == 4 ? tok[3] : NULL) == 0 ? "ok" : "bad-op");
     } else if (!strcmp(tok[0], "ptr") && n == 5) {
       int id = atoi(tok[1]), x = atoi(tok[2]), y = atoi(tok[3]), m = atoi(tok[4]), i, first = 1; unsigned char b[6];
       if (!alive(id) || x < 0 || y < 0 || x > 65535 || y > 65535) { puts("bad-op"); continue; }
@@ -434,7 +473,7 @@ int main(void) {
           printf(" shape="); if (shape.n) fwrite(shape.p, 1, shape.n, stdout); else putchar('-');
           if (havepos) printf(" pos=%d,%d", px, py); else printf(" pos=-");
           printf(" cov=%016llx pic=%016llx%s\n", (unsigned long long)vh_fnv(cov[i], (size_t)W * H),
-                 (unsigned long long)vh_fnv(pic[i], (size_t)W * H * BPP), perr ? " PARSE-ERROR" : "");
+                 (unsigned long long)vh_fnv(pic[i], (size_t)W * H * CB[i]), perr ? " PARSE-ERROR" : "");
         } else printf(" closed\n");
         /* direct oracle, part 1: the application's framebuffer is bit-identical after the update */
         if (st[i].after != st[i].before) printf("oracle c%d BAD framebuffer changed by update (res=%d)\n", i, st[i].res);
@@ -447,7 +486,7 @@ int main(void) {
       if (fail_fd >= 0) { int j, live = 0; for (j = 0; j < MAXC; j++) if (alive(j) && conns[j].cl->sock == fail_fd) live = 1; if (!live) { fail_fd = -1; fail_count = -1; } }
     } else if (!strcmp(tok[0], "dump") && (n == 2 || n == 3)) {
       if (!strcmp(tok[1], "fb")) { vh_puthex(stdout, (unsigned char *)scr->frameBuffer, (size_t)W * H * BPP); putchar('\n'); }
-      else if (n == 3 && atoi(tok[2]) >= 0 && atoi(tok[2]) < MAXC && pic[atoi(tok[2])]) { vh_puthex(stdout, pic[atoi(tok[2])], (size_t)W * H * BPP); putchar('\n'); }
+      else if (n == 3 && atoi(tok[2]) >= 0 && atoi(tok[2]) < MAXC && pic[atoi(tok[2])]) { vh_puthex(stdout, pic[atoi(tok[2])], (size_t)W * H * CB[atoi(tok[2])]); putchar('\n'); }
       else puts("bad-op");
     } else puts("bad-op");
     fflush(stdout);
